@@ -35,6 +35,7 @@ PROPS = {
     'C08': ['client'],
     'C09': ['client'],
     'C19': ['client'],
+    'C13': ['history'],
     'C14': ['validators'],
     'C18': ['http'],
     'C20': ['mocker'],
